@@ -585,6 +585,11 @@ func C16(tier string) int {
 				return
 			}
 		}
+		if ch := a.HeldPayloadsChanged(); len(ch) > 0 {
+			hmu.Lock()
+			res.Violate("payload-changed-after-hand-over", fmt.Sprintf("%v: %s", names, ch[0]), M{"check": "C16", "part": "history", "requests": names})
+			hmu.Unlock()
+		}
 		hmu.Lock()
 		nHist++
 		hmu.Unlock()
